@@ -454,6 +454,15 @@ func drawTriangles(t *rapid.T) ([]tri3, []string) {
 			pool[i][k] = x
 			classes[c] = true
 		}
+		// the same point spelled with another zero: -0, or a value that rounds to +-0 as a float32
+		if i > 0 && rapid.IntRange(0, 5).Draw(t, "zero-twin") == 0 {
+			j := rapid.IntRange(0, i-1).Draw(t, "twin-of")
+			a := rapid.IntRange(0, 2).Draw(t, "twin-axis")
+			pool[j][a] = 0
+			pool[i] = pool[j]
+			pool[i][a] = rapid.SampledFrom([]float64{math.Copysign(0, -1), -1e-60, 1e-60, -1e-46}).Draw(t, "twin-zero")
+			classes["zero-twin-vertex"] = true
+		}
 	}
 	out := make([]tri3, 0, n)
 	poolIdx := make([]int, npool)
